@@ -173,6 +173,18 @@ def grid():
         pm = np.array(v) / sum(v)
         D("loaded_dice", vec(*v), ("pmf_loose", pm), 0, len(v) - 1)
         D("alias", vec(*v), ("pmf", pm), 0, len(v) - 1)
+    # intervals a few thousand doubles wide, far from zero (a microsecond window at t = 1e6, whole seconds at 1e15), shapes with mass at
+    # the ends: every draw inside [min, max]; too few distinct values for a fit test
+    S("beta", [0.5, 0.5, 1e6, 1e6 + 1e-6], 1e6, 1e6 + 1e-6)
+    S("beta", [0.3, 2.0, 1e6, 1e6 + 1e-6], 1e6, 1e6 + 1e-6)
+    S("beta", [2.0, 0.3, 1e6, 1e6 + 1e-6], 1e6, 1e6 + 1e-6)
+    S("beta", [0.5, 0.5, -1e6 - 1e-6, -1e6], -1e6 - 1e-6, -1e6)
+    S("beta", [0.2, 0.2, 1e15, 1e15 + 2], 1e15, 1e15 + 2)
+    S("PERT", [1e15, 1e15 + 1, 1e15 + 2], 1e15, 1e15 + 2)
+    S("PERT_mod", [1e9, 1e9 + 0.5e-4, 1e9 + 1e-4, 0.05], 1e9, 1e9 + 1e-4)
+    S("PERT_mod", [1e9, 1e9 + 0.1e-4, 1e9 + 1e-4, 0.3], 1e9, 1e9 + 1e-4)
+    S("uniform", [1e15, 1e15 + 2], 1e15, 1e15 + 2)
+    S("triangular", [1e9, 1e9 + 0.5e-4, 1e9 + 1e-4], 1e9, 1e9 + 1e-4)
     # degenerate triangular: support only
     S("triangular", [2, 2, 2], 2, 2)
     return G
